@@ -54,6 +54,7 @@ func (s *State) Get(name, sort string) string {
 		t = s.x.sc.Declare(fmt.Sprintf("%s@loop%d", name, s.loop.li.id), sort)
 		if _, ok := s.loop.li.placeholders[name]; !ok {
 			s.loop.li.placeholders[name] = [2]string{t, s.loop.pre.Get(name, sort)}
+			s.loop.li.phNames[t] = name
 		}
 	} else if s.m == nil {
 		t = s.x.sc.Declare(fmt.Sprintf("%s@%d", name, s.epoch), sort)
